@@ -275,6 +275,14 @@ def gen_cases(rng, tier):
         p = prog(0)
         if r.chance(30):
             p = [["scope", r.sample(PROBE_NAMES, r.randint(0, 3)), prog(1) + [["raise"]]]] + p
+        if r.chance(20):
+            # a scope whose argument is unusual - a non-name among the names, a bare string, an iterator: whether the
+            # library accepts or refuses it, nothing of it may be in force once the statement is over
+            bad = ["badscope", r.sample(PROBE_NAMES, r.randint(1, 3)), r.choice(["nonname", "none", "barestring", "iterator"])]
+            tgt = p
+            if p and p[0][0] in ("scope", "scope_extend") and r.chance(50):
+                tgt = p[0][2]
+            tgt.insert(r.below(len(tgt) + 1), bad)
         cases.append({"kind": "scope", "glob": r.sample(PROBE_NAMES, r.randint(0, 2)), "prog": p + [["observe"]]})
         if any(c_[0] in ("scope", "scope_extend", "prepared") for c_ in p) and "raise" in json.dumps(p) and r.chance(50):
             cases[-1]["base_exc"] = True
@@ -438,6 +446,14 @@ def run_real(case):
                     elif c[0] == "scope":
                         with B.ignore_fields_for_comparison(list(c[1])):
                             run(c[2])
+                    elif c[0] == "badscope":
+                        arg = {"nonname": lambda: list(c[1]) + [5], "none": lambda: [None] + list(c[1]),
+                               "barestring": lambda: "".join(c[1]), "iterator": lambda: iter(list(c[1]) + [5])}[c[2]]()
+                        try:
+                            with B.ignore_fields_for_comparison(arg):
+                                pass
+                        except (TypeError, ValueError):
+                            pass                # refused: fine, as long as nothing of it stays in force
                     elif c[0] == "prepared":
                         cm = B.ignore_fields_for_comparison(list(c[1]))     # made now ...
                         run(c[2])
@@ -512,6 +528,8 @@ def _desugar(cmds):
             out += _desugar(c[2]) + [["scope", c[1], _desugar(c[3])]]
         elif c[0] in ("scope", "scope_extend"):
             out.append([c[0], c[1], _desugar(c[2])])
+        elif c[0] == "badscope":
+            out.append(["scope", c[1], []])          # accepted or refused: an empty scope, nothing observed inside
         else:
             out.append(c)
     return out
